@@ -8,6 +8,9 @@ texts of <= N tokens over {R, blank, ',', '(', ')', {a}, {b}} with each referenc
 (c) `ColumnMapper._value_handler` / `_category_handler` and the filter of `combine_dataframe` directly against
 `Assemble.valueHandler` (`isMissing`) / `categoryHandler` / `keep` on every cell of <= 3 characters over the
 characters of n/a, N, A, blank, #, 0, x (oracle: only exactly `n/a` and the empty cell are missing);
+(d) object histories on ONE `TabularInput`: series_a / dataframe_a / get_column_refs / assemble(skip) / validate and
+`reset_column_mapper(sidecar B)` with sidecar pairs whose reference sets differ; after every operation the rows must be
+those of a fresh object with the current sidecar (and the model's);
 (b) `TabularInput(table, sidecar)`: column kinds, reference set, transformer columns and their order,
 `assemble(skip_curly_braces=True)` cells and `list(series_a)` against `Assemble.kind / refsOf / activeCols /
 transformed / seriesWith`, three consecutive calls on one object.
@@ -68,11 +71,13 @@ THEOREMS = [
     "HedVerif.C06.assembled_wellformed",
     "HedVerif.C06.row_wellformed",
     "HedVerif.C06.once_excludes_the_finding",
+    "HedVerif.C06.history_last_sidecar",
     "HedVerif.C06.ref_order_blank_counterexample",
 ]
 BUDGET = {"quick": 900, "thorough": 3600}
 
 SIG_ADJ = "C06-same-reference-adjacent-twice"
+SIG_PAD = "C06-padded-na-reference-cell"
 TOKENS = ["R", " ", ",", "(", ")"]
 NAMES = ["a", "b", "c", "resp", "1", "20", "x_y", "k-1", "Z", "Ab"]
 TAGS = ["Red", "Blue", "Green", "Square", "Item/Thing", "(Circle, Big)", "Sensory-event", "{x y}"]
@@ -390,11 +395,11 @@ def place(rng, how, refs, tagpool):
     return gen_tree(rng, leaves)
 
 
-def gen_pair(rng):
+def gen_pair(rng, names=None, has_hed=None):
     """(spec, header, rows).  spec: name -> {"kind", "entry" (JSON), "trees": {key|None: tree}}"""
-    ncols = rng.randint(1, 4)
-    names = rng.sample(NAMES, ncols)
-    has_hed = rng.random() < 0.6
+    if names is None:
+        names = rng.sample(NAMES, rng.randint(1, 4))
+        has_hed = rng.random() < 0.6
     kinds = {}
     for nme in names:
         kinds[nme] = rng.choices(["categorical", "value", "ignored", "malformed"], [5, 4, 1, 1])[0]
@@ -595,20 +600,20 @@ def judge_pair(ctx, ok, case, spec, impl, model):
         ctx.disagree("Assemble.series = list(series_a)", case, model["series"], impl["series"][0])
     if model["series"] != model["series_rev"]:
         ctx.count("ref-order-changes-blanks-only")      # a spliced text ending in a blank next to a removed reference
-    # a referenced pass-through (HED / untyped) cell that is `n/a` padded with blanks: when a neighbouring reference
-    # is removed the padding can be absorbed, the text becomes exactly `n/a` and the row filter drops it -- then the
-    # answer depends on the processing order.  Reported as an observation; both outcomes are accepted.
+    # known family: a referenced pass-through (HED / untyped) cell that is `n/a` padded with blanks.  When a
+    # neighbouring reference is removed the padding can be absorbed, the text becomes exactly `n/a` and the row filter
+    # drops it; whether that happens depends on the iteration order of the reference set.  The expectation stays the
+    # statement's (the cell text is kept); a violation gets the family's signature only on such a row.
     def padded_na_rows():
         idc = [c for c in impl["refs"] if c in impl["columns"] and (c == "HED" or (c in spec and spec[c]["kind"] == "malformed"))]
         return {i for i, r in enumerate(rows) for c in idc
                 if dict(zip(header, r)).get(c, "").strip() == "n/a" and dict(zip(header, r)).get(c) != "n/a"}
     padded = padded_na_rows()
     diff_rows = {i for i, (x, y) in enumerate(zip(model["series"], model["series_rev"])) if norm(x) != norm(y)}
-    if diff_rows - padded:
+    if diff_rows:
         ctx.violation("same-answer-for-any-iteration-order-of-the-reference-set", case,
-                      {"order": impl["refs"], "series": model["series"], "reversed": model["series_rev"]})
-    elif diff_rows:
-        ctx.count("padded-n/a-reference-cell:order-dependent-row", len(diff_rows))
+                      {"order": impl["refs"], "series": model["series"], "reversed": model["series_rev"]},
+                      signature=SIG_PAD if diff_rows <= padded else None)
     # ---- oracle
     if not (impl["series"][0] == impl["series"][1] == impl["series"][2]):
         ctx.violation("same-answer-every-time", case, impl["series"])
@@ -654,13 +659,112 @@ def judge_pair(ctx, ok, case, spec, impl, model):
         if not balanced(got) and all(balanced(x) for x in rows[i]) and all(isinstance(v, str) and balanced(v)
                                                                             for v in chosen if v is not None):
             ctx.violation("row-parentheses-balanced", {**case, "row": i}, {"got": got, "expected": exp})
-        if norm(got) != norm(exp) and i in padded and norm(got) == norm(want_alt[i]):
-            ctx.count("padded-n/a-reference-cell:read-as-missing")
-        elif norm(got) != norm(exp):
+        if norm(got) != norm(exp):
+            if sig is None and i in padded and norm(got) == norm(want_alt[i]):
+                sig = SIG_PAD       # exactly the family: the padded cell was trimmed to n/a and dropped
             ctx.violation("row-is-the-prescribed-annotation", {**case, "row": i}, {"got": got, "expected": exp},
                           signature=sig)
         elif not ok(got):
             ctx.violation("row-delimiter-wellformed", {**case, "row": i}, {"got": got}, signature=sig)
+
+
+def spec_refs(spec):
+    out = set()
+    for s_ in spec.values():
+        if s_["kind"] in ("categorical", "value"):
+            for tr in s_["trees"].values():
+                out |= set(re.findall(r"\{([A-Za-z_\-0-9]+)\}", render(tr)))
+    return out
+
+
+HIST_OPS = ["series", "series", "frame", "refs", "refs", "skip", "skip", "validate"]
+
+
+def gen_history(rng):
+    """one table, two sidecars over the same columns whose reference sets differ, a sequence of operations"""
+    specA, header, rows = gen_pair(rng)
+    names = list(specA)
+    has_hed = "HED" in header
+    specB = specA
+    for _ in range(12):
+        specB = gen_pair(rng, names=names, has_hed=has_hed)[0]
+        if spec_refs(specB) != spec_refs(specA):
+            break
+    ops = [rng.choice(HIST_OPS) for _ in range(rng.randint(1, 2))]
+    cur = "A"
+    for _ in range(rng.randint(1, 3)):
+        cur = "B" if cur == "A" else rng.choice(["A", "B"])
+        ops.append("reset:" + cur)
+        ops += [rng.choice(HIST_OPS) for _ in range(rng.randint(0, 2))]
+    return {"A": specA, "B": specB, "header": header, "rows": rows, "ops": ops}
+
+
+def run_history(ctx, ok, h, schema):
+    """ops on ONE TabularInput; after every op its rows must be those of a fresh object with the current sidecar"""
+    import pandas as pd
+    from hed import TabularInput, Sidecar
+    case = {"history": {"A": make_case(h["A"], h["header"], h["rows"], False),
+                        "B": make_case(h["B"], h["header"], h["rows"], False), "ops": h["ops"]}}
+    mk = lambda sp: Sidecar(io.StringIO(json.dumps({c: s_["entry"] for c, s_ in sp.items()})))   # noqa: E731
+    df = pd.DataFrame(h["rows"], columns=h["header"], dtype=str)
+    try:
+        ti = TabularInput(df, sidecar=mk(h["A"]), name="gen")
+        cur = "A"
+        reqs, obs = [], []
+        for k, op in enumerate(h["ops"]):
+            if op == "series":
+                list(ti.series_a)
+            elif op == "frame":
+                ti.dataframe_a
+            elif op == "refs":
+                ti.get_column_refs()
+            elif op == "skip":
+                ti.assemble(skip_curly_braces=True)
+            elif op == "validate":
+                if schema is not None:
+                    ti.validate(schema)
+            else:
+                cur = op[-1]
+                ti.reset_column_mapper(mk(h[cur]))
+            got = [str(x) for x in ti.series_a]
+            fresh = TabularInput(df, sidecar=mk(h[cur]), name="gen")
+            want = [str(x) for x in fresh.series_a]
+            table = [[str(x) for x in r] for r in fresh.dataframe.values.tolist()]
+            reqs.append({"op": "c06.assemble", "sidecar": [[c, enc(s_["entry"])] for c, s_ in h[cur].items()],
+                         "header": [str(c) for c in fresh.dataframe.columns], "rows": table,
+                         "ref_order": list(fresh.get_column_refs())})
+            obs.append((k, op, cur, got, want))
+    except Exception as e:
+        ctx.violation("history-raised", case, f"{type(e).__name__}: {e}")
+        return
+    ans = ctx.model.batch(reqs)
+    differ = spec_refs(h["A"]) != spec_refs(h["B"])
+    ctx.case(("hist", json.dumps(case, sort_keys=True, default=str)), nontrivial=differ and any(o.startswith("reset") for o in h["ops"]))
+    ctx.count("history:reference-sets-differ" if differ else "history:same-reference-set")
+    for (k, op, cur, got, want), m in zip(obs, ans):
+        if got != want:
+            ctx.violation("after-any-history-rows-are-those-of-the-current-sidecar", {**case, "step": k},
+                          {"op": op, "sidecar": cur, "got": got, "fresh": want})
+            return
+        if m["series"] != want:
+            ctx.disagree("Assemble.series (current sidecar) = series_a after a history", {**case, "step": k},
+                         m["series"], want)
+            return
+
+
+def part_d(ctx, ok):
+    try:
+        from hed import load_schema_version
+        schema = load_schema_version("8.3.0")
+    except Exception:
+        schema = None
+        ctx.notes.append("schema 8.3.0 not loadable: the validate operation of histories is skipped")
+    n = 150 if ctx.quick() else 4000
+    for i in range(n):
+        run_history(ctx, ok, gen_history(ctx.rng), schema)
+        if i % 100 == 0:
+            ctx.check_time()
+    ctx.extra["object_histories"] = n
 
 
 def part_c(ctx):
@@ -774,6 +878,10 @@ def FIXED_PAIRS():
                 "trees": {"k1": [t("Red"), r("1"), t("Blue")],
                           "k2": [("grp", [r("1")]), ("grp", [r("HED"), t("Big")])]}}},
          ["c", "HED", "1"], [["k1", "Pink", "n/a"], ["k2", "n/a", "n/a"], ["k2", "Pink", "7"], ["k1", "", ""]]),
+        # the registered family C06-padded-na-reference-cell: HED cell 'n/a ' next to a removed reference
+        ({"Z": {"kind": "value", "entry": {"HED": "Age/# years"}, "trees": {None: [t("Age/# years")]}},
+          "k": {"kind": "categorical", "entry": {"HED": {"k2": "{HED}, {Z}"}}, "trees": {"k2": [r("HED"), r("Z")]}}},
+         ["Z", "k", "HED"], [["n/a", "k2", "n/a "], ["3", "k2", "n/a "], ["n/a", "k2", "Pink"]]),
         ({"b": {"kind": "value", "entry": {"HED": " {HED}, Age/# years"},
                 "trees": {None: [r("HED"), t("Age/# years")]}}},
          ["HED", "b"], [["n/a", "3"], ["Pink", "3"], ["", ""]]),
@@ -795,14 +903,13 @@ def run(ctx):
     t["handlers"] = round(ctx.elapsed(), 1)
     part_b_batched(ctx, ok)
     t["sidecar x table"] = round(ctx.elapsed(), 1)
+    part_d(ctx, ok)
+    t["object histories"] = round(ctx.elapsed(), 1)
     ctx.extra["elapsed_after_phase_s"] = t
     ctx.notes.append("reported, not judged: (1) the .tsv loader (pandas default NA strings) reads N/A, NA, nan, NaN, None, "
                      "null, NULL, #N/A, <NA>, -nan as n/a before assembly (histogram tsv-loader-reads-cell-as-n/a); "
                      "(2) a categorical entry keyed 'n/a' or '' in the sidecar is selected by an n/a / empty cell "
-                     "(_category_handler has no missing-cell test); (3) a blank-only HED cell is kept as an item; (4) a referenced "
-                     "HED/untyped cell 'n/a ' (padded) can lose its padding to a neighbouring removal, become exactly 'n/a' "
-                     "and be dropped: the row then depends on the iteration order of the reference set (histogram "
-                     "padded-n/a-reference-cell:*)")
+                     "(_category_handler has no missing-cell test); (3) a blank-only HED cell is kept as an item")
     ctx.notes.append("referenced columns carry no references themselves (the iteration order of the reference set is "
                      "taken from the implementation and the model is also run with the reversed order)")
     ctx.notes.append("ASCII names and blanks; DataFrame index is the default RangeIndex")
@@ -814,7 +921,16 @@ def replay(ctx, rec):
     if not case:
         print("nothing to replay (obligation-only record):", rec.get("broken_obligations"))
         return
-    if "handler_cell" in case:
+    if "history" in case:
+        hc = case["history"]
+        try:
+            from hed import load_schema_version
+            schema = load_schema_version("8.3.0")
+        except Exception:
+            schema = None
+        run_history(ctx, ok, {"A": spec_of_case(hc["A"]), "B": spec_of_case(hc["B"]), "header": hc["A"]["header"],
+                              "rows": hc["A"]["rows"], "ops": hc["ops"]}, schema)
+    elif "handler_cell" in case:
         part_c(ctx)
     elif "text" in case and "a" in case:
         check_two(ctx, ok, [case["text"]], case["a"], case["b"])
